@@ -496,8 +496,37 @@ class Gen:
             self.note("counter-captured")
             return ["def mk%s() { var f; for (var i = 0; i < %d; ++i) { f = fun[i]() { i } }; f }" % (k, hi)], \
                    ["var fa%s = mk%s()" % (k, k), "print(fa%s())" % k, "var fb%s = mk%s()" % (k, k), "print(fa%s() + fb%s())" % (k, k)]
+        if c < 0.93:
+            self.note("counter-bound-by-reference")
+            return [], ["var keep%s; for (var i = 0; i < %d; ++i) { keep%s := i }; print(keep%s)" % (k, hi, k, k),
+                        "var kv%s = []; for (var i = 0; i < %d; ++i) { for (var j = 0; j < 2; ++j) { kv%s.push_back(fun[i]() { i }) } }; print(kv%s[0]() + kv%s[%d]())" % (k, hi, k, k, k, 2 * hi - 1)]
         self.note("nested-counting-loops")
         return [], ["var t%s = 0; for (var i = 0; i < %d; ++i) { for (var j = 0; j < %d; ++j) { t%s += i * 10 + j; if (j == 1) { continue } }; if (i == %d) { break } }; print(t%s)" % (k, hi, hi, k, hi - 1, k)]
+
+    def map_family(self):
+        """map literals (repeated and computed keys), lookups, insertion through [], copies, size"""
+        r = self.r
+        k = self.fresh("m")
+        keys = ["a", "b", "c", "ab", "k1"]
+        items = []
+        for _ in range(r.randint(1, 5)):
+            key = r.choice(keys)
+            kx = '"%s"' % key if r.random() < 0.7 else '("%s" + "%s")' % (key[:1], key[1:])
+            items.append("%s: %s" % (kx, r.choice([str(r.randint(0, 9)), '"s%d"' % r.randint(0, 3), "[%d]" % r.randint(0, 3), "(1 + %d)" % r.randint(0, 5)])))
+        stmts = ["var mp%s = [%s]" % (k, ", ".join(items)), "print(mp%s.size())" % k]
+        for _ in range(r.randint(1, 4)):
+            key = r.choice(keys)
+            c = r.random()
+            if c < 0.4:
+                stmts.append('try { print(to_string(mp%s["%s"])) } catch(e) { print("no value") }' % (k, key))
+            elif c < 0.7:
+                stmts.append('mp%s["%s"] = %d' % (k, key, r.randint(10, 19)))
+            elif c < 0.85:
+                stmts.append('var cp%s%d = mp%s; cp%s%d["%s"] = 77; print(mp%s.size())' % (k, len(stmts), k, k, len(stmts), key, k))
+            else:
+                stmts.append("print(mp%s.size()); print(mp%s.empty())" % (k, k))
+        self.note("map-family")
+        return stmts
 
     def overload_family(self):
         """one name, overloads that differ in declared parameter types (and an untyped catch-all), defined in random order, called with each kind of value"""
@@ -525,6 +554,8 @@ class Gen:
             d, c = self.overload_family()
             parts += d
             self.pending_calls = c
+        if self.f.get("maps") and r.random() < self.f["maps"]:
+            self.pending_calls = getattr(self, "pending_calls", []) + self.map_family()
         if self.f.get("loops") and r.random() < self.f["loops"]:
             d, c = self.loop_families()
             parts += d
